@@ -84,6 +84,11 @@ def index(a, i):
     return E(f"{a.p()}[{i.text}]", max(a.depth, i.depth) + 1, ("index",) + a.ops + i.ops, f"(index {a.skel} {i.skel})", True)
 
 
+def tattr(a, n):
+    """tuple-field access t.0"""
+    return E(f"{a.p()}.{n}", a.depth + 1, ("tupleattr",) + a.ops, f"(tupleattr {a.skel})", True)
+
+
 def if2(c, a):
     return E(f"if {c.p()}, do {a.p()}", max(c.depth, a.depth) + 1, ("if",) + c.ops + a.ops, f"(if {c.skel} {a.skel})", False)
 
